@@ -167,6 +167,11 @@ pub fn stub_file_seek(f: &mut File, to: io::SeekFrom) -> io::Result<u64> {
     }
 }
 
+/// std's `File` overrides `stream_position` (it asks the descriptor directly): same model.
+pub fn stub_file_stream_position(f: &mut File) -> io::Result<u64> {
+    stub_file_seek(f, io::SeekFrom::Current(0))
+}
+
 pub fn stub_file_flush(_f: &mut File) -> io::Result<()> {
     Ok(())
 }
